@@ -518,6 +518,17 @@ def e_inject_slices(ctx, s):
             is_acc = lambda lv: bool(lv) and any(l.kind == "binop" and l.data["op"].startswith("Add") for l in lv) and \
                 all((l.kind == "const" and C.op_const(l.data) == "0_usize") or (l.kind == "binop" and l.data["op"].startswith("Add")) for l in lv)
             sel = cmp_holds_edges(b, s.prog, "ge", is_pos, is_acc)
+            if not sel:
+                # .. or in the closure of a `retain` / `filter` over the candidates (R14.12 / R18.6 judge that pass itself: the
+                # accumulator advances only for occurrences that are kept)
+                from rules_dir import _root_place
+                for cb in ctx.lib.closures_of(b):
+                    for cbb, csi, cst in cb.stmts():
+                        if cst["k"] == "assign" and cst["rv"]["k"] == "binop" and cst["rv"]["op"] in ("Lt", "Le", "Gt", "Ge"):
+                            for o in (cst["rv"]["a"], cst["rv"]["b"]):
+                                P = _root_place(cb, o)
+                                if P is not None and any(e.get("upvar") for e in P["p"]):
+                                    sel = True
             if sel:
                 return "UNVERIFIED: the slice bounds are found positions / (position + length) and an overlap test `pos >= end_of_previous` " \
                        "exists, but in a separate selection pass; that it orders these bounds is not decided structurally"
@@ -1025,3 +1036,13 @@ def r18_5(ctx):
     rules_sched.r03_2(ctx)
     rules_sched.r03_9(ctx)
     rules_sched.r03_8(ctx)
+
+
+@rule("C18", "R18.7", floor=1)
+def r18_7(ctx):
+    """what is counted is what is started: where the length of a collection is added to the progress total, every iteration of the loop over
+    that collection starts a task (or fails the run) — no element is skipped after it was counted. `add_total(files.len())` in front of the
+    per-file "already in the build?" test counts duplicates that are never started: `done` cannot reach `total`, the coordinator polls
+    forever"""
+    import rules_sched
+    rules_sched._counted_is_spawned(ctx)
